@@ -101,6 +101,10 @@ def export_to_yaml(statechart: Statechart, filepath: str = None) -> str:
     output = StringIO()
 
     yml = yaml.YAML(typ='safe', pure=True)
+    # Always use the block style: flow mappings such as {name: x, on exit: ...} are folded by the
+    # emitter in the middle of a key ("on exit" split over two lines) or written with an unquoted
+    # leading '?', and cannot be loaded again.
+    yml.default_flow_style = False
     yml.dump(export_to_dict(statechart), output)
 
     if filepath:
